@@ -354,10 +354,10 @@ PROPS['C19']['level_text'] = ('CHOICE holds at most one alternative: Choice.setC
                               'and slice-addressed operations, sort/reverse/count/index and the composition over operation histories '
                               'are decided on bounded operation histories against list/dict models, DER of the model compared after '
                               'every step (labelled bounded).')
-PROPS['C17']['contracts'] = [(UN, 'native.encoder::SetEncoder.encode')]
+PROPS['C17']['contracts'] = [(UN, 'native.encoder::SetEncoder.encode'), (UN, 'native.encoder::SetEncoder.encode[any-size]')]
 PROPS['C17']['level_text'] = ('native SetEncoder/SequenceEncoder.encode: the python mapping holds exactly the present members, '
-                              'absent OPTIONAL members are left out (contract over records of three members with every OPTIONAL/set pattern: '
-                              'a bounded instance); dispatch tables of the native codec are '
+                              'absent OPTIONAL members are left out (contract over records of any size, keys and components symbolic; a second, '
+                              'bounded instance over three members checks the per-member conversion); dispatch tables of the native codec are '
                               'complete (complete evaluation); scalar conversions are string/float based and outside the '
                               'modelled subset, so the round trip and python-value + schema equality are bounded stand-ins.')
 PROPS['C18']['contracts'] = PROPS['C18']['contracts'] + [(UN, 'ber.decoder::AnyPayloadDecoder.valueDecoder[untagged,complete]')]
